@@ -355,9 +355,13 @@ pub fn c20_columns(c: &ColCase) -> Outcome {
     }
     if !protrudes {
         let total = dw(c.left) + dw(c.right) + dw(c.mid) * (c.columns - 1) + cw * c.columns + rem;
+        // a cell (or gap) that ends inside an unterminated escape sequence swallows the padding that follows it: display widths are
+        // then not additive over the row (known finding KF7)
+        let swallows = |t: &str| dw(&format!("{}x", t)) == dw(t);
+        let open_seq = cells.iter().any(|cell| swallows(cell)) || swallows(c.left) || swallows(c.mid);
         for r in &rows {
             if dw(r) != total {
-                return Err(format!("row {:?} is {} wide, expected {}", r, dw(r), total));
+                return Err(format!("{}row {:?} is {} wide, expected {}", if open_seq { "[class=KF7-unterminated-sequence-swallows-padding] " } else { "" }, r, dw(r), total));
             }
         }
     }
